@@ -884,3 +884,60 @@ def r08_9_no_overflow_from_parse(ctx: Ctx) -> RuleResult:
             else:
                 rr.fail(g.qual, f"`{unparse(c)[:70]}` can raise OverflowError (from {src.fn}) and nothing catches it: the exception escapes parse instead of a failure result", ctx.loc(g, c))
     return rr
+
+
+@rule("C08")
+def r08_10_field_set_tests(ctx: Ctx) -> RuleResult:
+    """Two structural conditions on the tests the builder makes on its set of used fields.
+    (a) A combination check (`ERA without YEAR_OF_ERA`, `CALENDAR and ERA`, embedded vs plain) looks at the fields it is about
+    through a mask / has_any / has_all: a bare `used_fields == X` only fires for patterns made of nothing but X, so the forbidden
+    combination is accepted as soon as the pattern has any other field, and parsing then runs into the conflict it was meant to
+    prevent.  (b) A pattern-character handler runs while the pattern is still being scanned: the field set it sees is incomplete, so
+    it may only test for fields it adds itself (duplicates); a decision taken there on the presence of *another* field depends on
+    the order of the fields in the pattern text, while the matching format action is built from the final set."""
+    rr = RuleResult("R08.10", "field-set tests: combination checks are masked; handlers running during pattern scanning only test the fields they add themselves", min_instances=4)
+    M = ctx.M
+    b = M.cls("_SteppedPatternBuilder")
+    # (a)
+    for f in b.all_defs:
+        if isinstance(f.node, ast.Lambda):
+            continue
+        for n in own_nodes(f.node):
+            if isinstance(n, ast.Compare) and len(n.ops) == 1 and isinstance(n.ops[0], (ast.Eq, ast.NotEq)):
+                for side in (n.left, n.comparators[0]):
+                    if isinstance(side, ast.Attribute) and side.attr.endswith("used_fields") and unparse(side.value) == (f.self_name or "self"):
+                        other = n.comparators[0] if side is n.left else n.left
+                        if isinstance(other, ast.Name) and other.id.startswith("new_"):
+                            continue  # `new == old` duplicate detection in _add_field
+                        rr.inst()
+                        rr.fail(f.qual, f"`{unparse(n)[:80]}` compares the whole field set: the check only fires when the pattern contains nothing else", ctx.loc(f, n))
+            if isinstance(n, ast.Compare) and any(isinstance(x, ast.BinOp) and isinstance(x.op, ast.BitAnd) and "used_fields" in unparse(x.left) for x in ast.walk(n)):
+                rr.inst()
+                rr.ok({"fn": f.qual, "test": unparse(n)[:80]})
+    # (b)
+    for f in sorted(set(M.func_of_node.values()), key=lambda x: x.qual):
+        if isinstance(f.node, ast.Lambda) or "/text/" not in f.mod.rel or f.cls is b:
+            continue
+        reads = [n for n in own_nodes(f.node) if isinstance(n, ast.Attribute) and n.attr in ("_used_fields", "used_fields") and isinstance(n.value, ast.Name) and n.value.id in ("builder", "pattern_builder")]
+        if not reads:
+            continue
+        added = set()
+        for c in own_nodes(f.node):
+            if isinstance(c, ast.Call) and isinstance(c.func, ast.Attribute) and c.func.attr == "_add_field":
+                for a in list(c.args) + [k.value for k in c.keywords]:
+                    for x in ast.walk(a):
+                        if isinstance(x, ast.Attribute) and unparse(x).startswith("_PatternFields."):
+                            added.add(x.attr)
+        for rd in reads:
+            # the expression the read takes part in
+            top: ast.AST = rd
+            while not isinstance(getattr(top, "_parent", None), ast.stmt) and getattr(top, "_parent", None) is not None:
+                top = top._parent  # type: ignore[attr-defined]
+            tested = {x.attr for x in ast.walk(top) if isinstance(x, ast.Attribute) and unparse(x).startswith("_PatternFields.") and x.attr != "NONE"}
+            rr.inst()
+            foreign = sorted(tested - added)
+            if foreign:
+                rr.fail(f.qual, f"tests the builder's field set for {foreign} while the pattern is still being scanned (this handler adds {sorted(added) or 'nothing'}): the outcome depends on where that field stands in the pattern text", ctx.loc(f, rd))
+            else:
+                rr.ok({"handler": f.qual, "tests": sorted(tested)})
+    return rr
